@@ -15,6 +15,7 @@ import (
 	"runtime/debug"
 	"strings"
 	"sync"
+	"syscall"
 	"time"
 )
 
@@ -88,10 +89,12 @@ func trimStack(s string) string {
 }
 
 type worker struct {
-	cmd *exec.Cmd
-	in  io.WriteCloser
-	out *bufio.Reader
-	err *tailBuf
+	cmd  *exec.Cmd
+	in   io.WriteCloser
+	outp io.ReadCloser
+	out  *bufio.Reader
+	err  *tailBuf
+	dead chan struct{} // closed when the worker PROCESS has exited (whoever still holds its pipes)
 }
 
 type tailBuf struct {
@@ -99,7 +102,13 @@ type tailBuf struct {
 	buf []byte
 }
 
+// forwardStderr: the workers' stderr is also copied to the parent's (race detector reports are written there)
+var forwardStderr = os.Getenv("VERIF_WORKER_STDERR") == "1"
+
 func (t *tailBuf) Write(p []byte) (int, error) {
+	if forwardStderr {
+		os.Stderr.Write(p)
+	}
 	t.mu.Lock()
 	t.buf = append(t.buf, p...)
 	if len(t.buf) > 8192 {
@@ -123,16 +132,30 @@ func spawn(mode string) (*worker, error) {
 	}
 	tb := &tailBuf{}
 	cmd.Stderr = tb
+	// a process group of its own: processes started by the code under test (prefork workers) die with the worker, and a worker
+	// that dies while such processes still hold its pipes is noticed through its exit, not through end-of-file
+	cmd.SysProcAttr = &syscall.SysProcAttr{Setpgid: true}
+	cmd.WaitDelay = 2 * time.Second
 	if err := cmd.Start(); err != nil {
 		return nil, err
 	}
-	return &worker{cmd: cmd, in: in, out: bufio.NewReaderSize(outp, 1<<20), err: tb}, nil
+	w := &worker{cmd: cmd, in: in, outp: outp, out: bufio.NewReaderSize(outp, 1<<20), err: tb, dead: make(chan struct{})}
+	go func() {
+		cmd.Wait()
+		close(w.dead)
+	}()
+	return w, nil
 }
 
 func (w *worker) kill() {
 	w.in.Close()
+	syscall.Kill(-w.cmd.Process.Pid, syscall.SIGKILL)
 	w.cmd.Process.Kill()
-	w.cmd.Wait()
+	select {
+	case <-w.dead:
+	case <-time.After(5 * time.Second):
+	}
+	w.outp.Close()
 }
 
 // RunParent: reads all cases from r, distributes to n workers, writes results to wr.
@@ -178,10 +201,29 @@ func RunParent(mode string, r io.Reader, wr io.Writer, n int, perCase time.Durat
 					l, e := w.out.ReadBytes('\n')
 					ch <- rep{l, e}
 				}(w)
+				var rp rep
+				got := false
 				select {
-				case rp := <-ch:
+				case rp = <-ch:
+					got = true
+				case <-w.dead:
+					// the process is gone; a result written just before is still accepted
+					select {
+					case rp = <-ch:
+						got = true
+					case <-time.After(300 * time.Millisecond):
+						rp = rep{nil, io.EOF}
+						got = true
+					}
+				case <-time.After(perCase):
+				}
+				switch {
+				case got:
 					if rp.err != nil || len(rp.line) == 0 {
-						w.cmd.Wait()
+						select {
+						case <-w.dead:
+						case <-time.After(3 * time.Second):
+						}
 						results <- mkObs(c, "exit", lastLines(w.err.String()))
 						w.kill()
 						w = nil
@@ -193,7 +235,7 @@ func RunParent(mode string, r io.Reader, wr io.Writer, n int, perCase time.Durat
 							w = nil
 						}
 					}
-				case <-time.After(perCase):
+				default:
 					results <- mkObs(c, "timeout", "")
 					w.kill()
 					w = nil
